@@ -343,7 +343,9 @@ pub fn term_set(thorough: bool) -> Vec<T> {
     ];
     let mut v = atoms.clone();
     let unary: &[&'static str] = if thorough {
-        &["S", "C", "slice", "ptrc", "ptrm", "ref"]
+        // (no references: generalizing `&'static T` creates lifetime unknowns, which the reference
+        // state of this search does not model; lifetimes are C29's subject)
+        &["S", "C", "slice", "ptrc", "ptrm"]
     } else {
         &["S", "slice", "ptrm", "C"]
     };
